@@ -3,6 +3,7 @@ package props
 import (
 	"bytes"
 	"encoding"
+	"encoding/base64"
 	"encoding/hex"
 	"encoding/json"
 	"math/big"
@@ -90,10 +91,25 @@ func uncomp(prefix byte, x, y *big.Int) []byte {
 // genElementBytes draws a byte string and the name of its class.
 func genElementBytes(t *rapid.T) ([]byte, string) {
 	kinds := []string{"valid-comp", "valid-uncomp", "identity", "prefix", "length", "x-range", "y-range", "alias-x", "alias-y",
-		"y-mutated", "off-curve", "one-byte", "random", "random-33", "random-65", "cross"}
+		"y-mutated", "off-curve", "one-byte", "random", "random-33", "random-65", "cross", "other-format"}
 	kind := kinds[gen.Pick(t, "kind", len(kinds))]
 	p := randomPoint(t)
 	switch kind {
+	case "other-format": // a valid encoding in another format handed to the binary decoders: hex text, base64
+		enc := ref.Compress(p)
+		if rapid.Bool().Draw(t, "ofUnc") {
+			enc = ref.Uncompressed(p)
+		}
+		switch gen.Pick(t, "otherFormat", 4) {
+		case 0:
+			return []byte(hex.EncodeToString(enc)), kind
+		case 1:
+			return []byte(strings.ToUpper(hex.EncodeToString(enc))), kind
+		case 2:
+			return []byte("0x" + hex.EncodeToString(enc)), kind
+		default:
+			return []byte(base64.StdEncoding.EncodeToString(enc)), kind
+		}
 	case "valid-comp":
 		return ref.Compress(p), kind
 	case "valid-uncomp":
@@ -300,6 +316,14 @@ var c03 = gen.Register(&gen.Check[caseC03]{
 				c.Text = c.Data
 			}
 			out = append(out, c)
+		}
+		// the hex TEXT of valid encodings handed to the binary decoders
+		for _, dec := range []string{"decode", "unmarshal", "compressed", "uncompressed"} {
+			for _, enc := range [][]byte{ref.Compress(g), ref.Uncompressed(g), {0}} {
+				txt := hex.EncodeToString(enc)
+				mk([]byte(txt), dec, "other-format")
+				mk([]byte(strings.ToUpper(txt)), dec, "other-format")
+			}
 		}
 		// inputs of 2^32 (2^33) bytes plus a valid length
 		for _, dec := range []string{"decode", "unmarshal", "compressed", "uncompressed"} {
